@@ -173,6 +173,39 @@ def build_case(rng, method, rows, cols, style, offset=0, border="clean", stale=F
             "border": border if offset > 0 else "none", "style": style}
 
 
+def long_gap_case(rng):
+    """a strip in which a flagged pixel and the valid pixels it can be filled from are separated by a long run of
+    invalid pixels (the path loops are bounded by max(rows, cols), nothing shorter)"""
+    method = rng.choice(ia.METHODS)
+    n = rng.choice([rng.randrange(103, 130), rng.randrange(130, 215), rng.randrange(215, 270)])
+    other = rng.choice([1, 1, 2, 3])
+    gap = rng.randrange(100, n - 2)
+    start = rng.randrange(0, n - gap - 1)
+    line = ["i"] * n
+    for k in range(0, start + 1):
+        line[k] = rng.choice("omomv") if k < start else rng.choice("om")
+    for k in range(start + gap + 1, n):
+        line[k] = "v" if k == start + gap + 1 else rng.choice("vvio")
+    if rng.random() < 0.5:
+        line.reverse()
+    horizontal = rng.random() < 0.5
+    rows, cols = (other, n) if horizontal else (n, other)
+    main = rng.randrange(other)
+    pool = pick_pool(rng)
+    disp, flag = [], []
+    for r in range(rows):
+        dr, fr = [], []
+        for c in range(cols):
+            along, across = (c, r) if horizontal else (r, c)
+            state = line[along] if across == main else rng.choice("iiio")
+            d, f = gen_pixel(rng, state, pool, method)
+            dr.append(core.enc(d) if d != "nan" else "nan")
+            fr.append(f)
+        disp.append(dr)
+        flag.append(fr)
+    return {"method": method, "offset": 0, "disp": disp, "flag": flag, "label": "long_gap", "border": "none", "style": "long_gap"}
+
+
 def random_case(rng, thorough):
     method = rng.choice(ia.METHODS)
     shape = rng.random()
@@ -612,6 +645,9 @@ def run(ctx, report, status):
         rows, cols = rng.choice([(1, rng.randrange(20, 60)), (rng.randrange(20, 60), 1), (2, rng.randrange(15, 40)),
                                  (rng.randrange(15, 30), 3)])
         check_case(ctx, report, build_case(rng, method, rows, cols, rng.choice(STYLES), label="strip"), "strip", kernels=False)
+    # sources far away: the only valid pixel in sight lies more than 100 (150, 200) pixels from the flagged one
+    for _ in range(ctx.n(6, 60)):
+        check_case(ctx, report, long_gap_case(rng), "long_gap", kernels=False, do_shrink=False)
     # through the state machine
     for _ in range(ctx.n(100, 1500)):
         check_validation_case(ctx, report, validation_case(rng))
